@@ -3,6 +3,7 @@ import PqV.Lemmas.Footer
 import PqV.Lemmas.Dataset
 import PqV.Lemmas.DatasetInv
 import PqV.Props.C09
+import PqV.Gen.PartNumbering
 /-!
 # C07 — append adds rows at the end and leaves existing data untouched
 -/
@@ -128,5 +129,11 @@ theorem appends_concatenate (nds : List NewData) (hp : ∀ nd ∈ nds, PiecesOk 
       exact Or.inl hr
 
 end sequences
+
+/-- the source as it stands (REGENERATED from `writer.find_max_part` / `write_multi`): the first new
+    part number of an append is one more than the highest number the metadata references (0 for an
+    empty dataset), computed from the dataset's whole row-group list — the `maxPart` of the model -/
+theorem part_numbering_now : PqV.Gen.PartNumbering.rule = "maxPlusOne" ∧
+    PqV.Gen.PartNumbering.offsetAssignments = ["i_offset=0", "i_offset=find_max_part(fmd.row_groups)"] := by decide
 
 end PqV.Props.C07
